@@ -252,7 +252,14 @@ class HostInterp:
         if isinstance(st, ast.Continue):
             raise _Continue()
         if isinstance(st, ast.Raise):
-            raise Raised(dotted(st.exc.func) if isinstance(st.exc, ast.Call) else "raise")
+            r = Raised(dotted(st.exc.func) if isinstance(st.exc, ast.Call) else "raise")
+            r.value = None
+            if st.exc is not None and not isinstance(st.exc, ast.Call):
+                try:
+                    r.value = self.ev(st.exc, env)
+                except AnalysisError:
+                    pass
+            raise r
         if isinstance(st, (ast.Pass, ast.Assert, ast.Import, ast.ImportFrom, ast.Nonlocal, ast.Global)):
             return
         raise AnalysisError(f"rewriter interpretation: unsupported statement {type(st).__name__} at line {st.lineno}")
@@ -452,6 +459,13 @@ class HostInterp:
             return self.call(e, env)
         raise AnalysisError(f"rewriter interpretation: unsupported expression {type(e).__name__} at line {getattr(e, 'lineno', '?')}")
 
+    def as_callable(self, v):
+        if isinstance(v, Closure):
+            return lambda *a, **k: self.call_function(v.node, list(a), k, v.env)
+        if isinstance(v, tuple) and len(v) == 3 and v[0] == "bound":
+            return lambda *a, **k: self.call_function(v[2], [v[1]] + list(a), k, {})
+        return v
+
     def comp(self, c, env):
         out = []
 
@@ -490,6 +504,10 @@ class HostInterp:
                 kwargs[k.arg] = self.ev(k.value, env)
             else:
                 kwargs.update(self.ev(k.value, env))
+        if not isinstance(fn, (Closure, tuple)):
+            # closures handed to host functions (reduce, map, sorted key, ...) become callables
+            args = [self.as_callable(a) for a in args]
+            kwargs = {k: self.as_callable(v) for k, v in kwargs.items()}
         if isinstance(fn, tuple) and fn and fn[0] == "builtin-visit":
             node = args[0]
             if fn[1] == "visit":
